@@ -259,6 +259,25 @@ func (s *scheduler) drain(g *gor) {
 				return
 			}
 		}
+		if s.e.Cfg.SchedExplore >= 0 {
+			// explore mode: the draining goroutine itself is not a candidate (choosing it makes no progress
+			// and forks without bound); the order among the others is a scheduling choice
+			others := make([]*gor, 0, len(r))
+			for _, x := range r {
+				if x != g {
+					others = append(others, x)
+				}
+			}
+			if len(others) == 0 {
+				return
+			}
+			next := others[0]
+			if len(others) > 1 {
+				next = others[s.e.choose(len(others), "drain", nil)]
+			}
+			s.switchTo(g, next)
+			continue
+		}
 		s.yield(g)
 		if len(s.runnable()) <= 1 {
 			return
